@@ -76,14 +76,14 @@ type worker struct {
 	// park request: "" = run through; otherwise "<point>/<method>" or "<point>/*"
 	parkReq atomic.Value
 	release chan struct{}
-	point   atomic.Value  // where it is parked: "<point>/<method>"
+	point   atomic.Value // where it is parked: "<point>/<method>"
 }
 
 type sched struct {
 	mu      sync.Mutex
 	lines   []string
 	ws      []*worker
-	byGid   sync.Map // gid -> *worker
+	byGid   sync.Map                      // gid -> *worker
 	extra   func(gi map[int64]gInfo) bool // additional settle condition (internal goroutines)
 	hung    bool
 	stopped bool
